@@ -10,8 +10,8 @@ from ..runner import Suite
 from .. import core, stdio_gen as G, stdio_out as O
 
 MANIFEST = dict(
-    text="Lean 4 theorems about an executable model of StdioClient._stdin_writer over a JSON value type with a compact and a stdlib-style encoder: for every sequence of outbound items (typed message / dict by the value it denotes, pre-serialised single-line string, unserialisable object) of any length, the bytes the child receives split at LF into exactly the encodings of the serialisable items' lines, in order, nothing left over; no line contains a raw LF or CR (encoder theorem by mutual induction over all JSON values, all code points, both styles); the bytes are valid UTF-8 decoding back to the lines; an unserialisable item changes neither the bytes nor the sends around it; stdin is closed exactly when the write stream is closed, after all writes; and for the TWO writers of the child's stdin (the outgoing-stream writer task and the stdout reader task's batch-rejection write-back), for every interleaving of their send() calls the byte stream splits at LF into an interleaving of exactly the accepted outbound lines in order and the complete rejection lines - no line is ever torn, every line is one whole message or one whole rejection. Correspondence: the real writer is driven through the anyio.open_process seam, the captured bytes are split and JSON-decoded and compared with the model's, with orjson present, with orjson blocked (worker process) and, in the thorough tier, under the fallback backend; a duplex suite drives both directions at once against a scripted child that is slow to read its stdin (send() suspends per accepted bytes in virtual time) while its stdout emits batch arrays at versions without batching, with outbound messages of 65 KB to 300 KB: the lines the child received must be the outbound messages in order interleaved only with complete -32600 rejection lines.",
-    note="Partial in one named respect: 'decoded value equals the message' rests on the correspondence run (which decodes every line the real writer emitted) - the model's line IS enc(value); dec(enc v)=v is C17's theorem. Pydantic / orjson / stdlib json are sampled, not proved. A caller-supplied string containing a raw line break is outside the property (explicit guard in the theorems, never generated).",
+    text="Lean 4 theorems about an executable model of StdioClient._stdin_writer over the shared JSON model (Model/Json.lean: values, encoders of every separator / ensure_ascii style, RFC 8259 decoder) and the envelope model (Model/Rpc.lean: emit = the message with absent optional members omitted): for every sequence of outbound items (plain dict by its value, typed envelope, pre-serialised single-line string, unserialisable object) of any length and every encoder style, the bytes the child receives split at LF into exactly the encodings of the serialisable items' lines, in order, nothing left over; no line contains a raw LF or CR; the bytes are valid UTF-8 decoding back to the lines; CONTENT: the line of a dict decodes (UTF-8, then Json.dec) to exactly its value, the line of a typed envelope to exactly Rpc.emit m and, parsed by the library's parser model, to the message that was sent, and the whole byte stream split at LF and decoded line by line is the list of the accepted messages' values in order (c06_decodes_to_message, c06_stream_decodes*, using C17's dec(enc v)=v and C02's wire round trip); an unserialisable item changes neither the bytes nor the sends around it; stdin is closed exactly when the write stream is closed, after all writes; and for the TWO writers of the child's stdin (the outgoing-stream writer task and the stdout reader task's batch-rejection write-back), for every interleaving of their send() calls the byte stream splits at LF into an interleaving of exactly the accepted outbound lines in order and the complete rejection lines - no line is ever torn, every line is one whole message or one whole rejection. Correspondence: the real writer is driven through the anyio.open_process seam, the captured bytes are split and JSON-decoded and compared with the model's, with orjson present, with orjson blocked (worker process) and, in the thorough tier, under the fallback backend; a duplex suite drives both directions at once against a scripted child that is slow to read its stdin (send() suspends per accepted bytes in virtual time) while its stdout emits batch arrays at versions without batching, with outbound messages of 65 KB to 300 KB: the lines the child received must be the outbound messages in order interleaved only with complete -32600 rejection lines.",
+    note="Full on the model (no partial theorem left): 'decoded value equals the message' is proved with the shared decoder for every value and style. Outside the proof and sampled by the correspondence run (which decodes every line the real writer emitted): that Pydantic's model_dump_json(exclude_none=True), orjson and stdlib json write Json.enc st of the value for some style; floats are opaque tokens (wf) and not generated. A caller-supplied string containing a raw line break is outside the property (explicit guard in the theorems, never generated).",
     technique="Lean 4 proof over a hand-written executable model + correspondence run against the real StdioClient",
     design="5/C06",
 )
@@ -23,6 +23,11 @@ THEOREMS = [
     "c06_one_send_each",
     "c06_line_count",
     "c06_utf8_roundtrip",
+    "c06_decodes_to_message",
+    "c06_typed_parses_back",
+    "c06_item_decodes",
+    "c06_stream_decodes",
+    "c06_stream_decodes_to_messages",
     "c06_drop_isolated",
     "c06_sequence_is_concatenation",
     "c06_close_closes_stdin",
@@ -44,8 +49,9 @@ RULE = (
 TRUSTED = ["scripted process behind anyio.open_process (py/verifpy/stdio_h.py)", "stdlib json used by the harness to decode the captured lines"]
 ASSUMPTIONS = [
     "a caller-supplied string is a single-line pre-serialised message (no raw LF/CR): guard of the property",
-    "Pydantic's model_dump_json(exclude_none=True), orjson.dumps and json.dumps denote the value they are given (sampled)",
-    "floats are not generated (opaque in the model)",
+    "Pydantic's model_dump_json(exclude_none=True), orjson.dumps and json.dumps write Json.enc st (value) for some encoder style st "
+    "(sampled here by decoding every emitted line; fast_json's styles are pinned by C17's correspondence)",
+    "float tokens inside payloads are well-formed JSON numbers (wf, as in C17); floats are opaque and not generated",
     "one send() on the child's stdin appends its bytes to the pipe as a unit (anyio/asyncio StreamWriter.write); the two "
     "tasks interleave at send() granularity - the scripted stdin implements exactly that and suspends the caller afterwards",
 ]
